@@ -51,6 +51,17 @@ Fixpoint rate_events_immediate (tprev : Z) (l : list event) : bool :=
   | e :: l' => (if kind_is KRateExceeded e then e_time e =? tprev else true) && rate_events_immediate (e_time e) l'
   end.
 
+(* per retry policy (stack position): every OnRetry is preceded by its own OnRetryScheduled -- a retry that was decided may
+   be cancelled before it starts (then another OnRetryScheduled may follow), but none starts without having been decided *)
+Fixpoint retry_pairs_ok (pos : nat) (pending : bool) (l : list event) : bool :=
+  match l with
+  | [] => true
+  | e :: l' =>
+      if Nat.eqb (e_pos e) pos && kind_is KRetryScheduled e then retry_pairs_ok pos true l'
+      else if Nat.eqb (e_pos e) pos && kind_is KRetry e then pending && retry_pairs_ok pos false l'
+      else retry_pairs_ok pos pending l'
+  end.
+
 Definition c16_ok (q : request) (o : xobs) : bool :=
   let evs := x_events o in
   let '(ls, lf, ld) := q_lsn q in
@@ -60,8 +71,7 @@ Definition c16_ok (q : request) (o : xobs) : bool :=
   && (if ls && lf then ns + nf =? 1 else true)
   && forallb (fun e => if kind_is KExecSuccess e || kind_is KExecFailure e || kind_is KExecDone e
                        then outcome_eqb (e_out e) (if q_run q then (fst (e_out e), snd (x_out o)) else x_out o) else true) evs
-  && (count_kind KRetry evs <=? count_kind KRetryScheduled evs)
-  && (count_kind KRetryScheduled evs <=? count_kind KRetry evs + Z.of_nat (length (filter (fun p => match p with PRetry _ => true | _ => false end) (q_stack q))))
+  && forallb (fun p => retry_pairs_ok p false evs) (seq 0 (length (q_stack q)))
   && (count_kind KFnStart evs =? count_kind KFnEnd evs).
 
 (* ---- C02: a retry policy that is the whole stack runs the function at most maxRetries+1 times,
